@@ -473,6 +473,9 @@ func (s *session) visitNode(sprint *sprint, run flows.Run, node flows.Node, trig
 
 			// check if this action has errored the run
 			if run.Status() == flows.RunStatusFailed {
+				// a failed run can't enter a flow which an earlier action on this node asked for
+				s.pushedFlow = nil
+
 				return step, nil, "", nil
 			}
 		}
